@@ -16,6 +16,8 @@ inductive PyVal where
   | pynone : PyVal
   | str : PyVal
   | other : PyVal            -- tuple, dict, set, object ...
+  | nan : PyVal              -- float('nan'): a float, but not a real number (as repaired: refused like a non-number)
+  | inf : PyVal              -- float('inf') / float('-inf'): likewise
 deriving Repr, Inhabited
 
 inductive SErr where
@@ -82,6 +84,18 @@ def mulScheme (S : Scheme) (k : Option Int) : Except SErr Scheme :=
   match k with
   | none => .error .valueError
   | some k => ofNums (Scheme.scale k S)
+
+/-- what `__mul__` can be given: a finite number, something that is not a number, or NaN / ±inf (a float, but every
+    product is NaN or infinite, which the constructor refuses as "non real") -/
+inductive MulArg where
+  | num : Int → MulArg
+  | notNumber : MulArg
+  | nonFinite : MulArg
+
+def mulSchemeArg (S : Scheme) : MulArg → Except SErr Scheme
+  | .num k => mulScheme S (some k)
+  | .notNumber => mulScheme S none
+  | .nonFinite => .error .nonReal
 
 /-- state of the proportionality scan: the coefficient `pen1/pen2` as a fraction, `none` = NaN (not yet set). -/
 abbrev Coef := Option (Int × Int)
